@@ -127,6 +127,15 @@ fn write(f: &mut Full, o: &Value) -> (Res, Value, Value) {
                 owner: owner.to_string(), asset_info: f.usdc.info(), token_id: f.w.codes.token, vault_fees: vf, fee_collector_addr: f.hub.collector.to_string(), token_factory_lp: false }, &[], "rawvault", None);
             match r { Ok(a) => { f.w.register("rawvault", &a); let c = vault_cfg(f, &a); (Res::Ok(Default::default()), json!({"kind": "vault", "fee": c}), fee_args("f")) } Err(e) => (Res::Rejected(e.to_string()), none(), fee_args("f")) }
         }
+        "distributor.update+2x" | "distributor.update+30x" => {
+            // the grace period together with an epoch 2 / 30 times as long, in one message
+            let g = grace_of(mv);
+            let k: u64 = if w.ends_with("+2x") { 2 } else { 30 };
+            let cfg: white_whale_std::fee_distributor::Config = f.w.query(&f.hub.distributor, &white_whale_std::fee_distributor::QueryMsg::Config {}).unwrap();
+            (f.w.exec(&owner, &f.hub.distributor.clone(), &white_whale_std::fee_distributor::ExecuteMsg::UpdateConfig { owner: None, bonding_contract_addr: None, fee_collector_addr: None,
+                grace_period: Some(Uint64::new(g)), distribution_asset: None,
+                epoch_config: Some(EpochConfig { duration: Uint64::new(cfg.epoch_config.duration.u64().saturating_mul(k)), genesis_epoch: cfg.epoch_config.genesis_epoch }) }, &[]),
+             none(), json!({"w": w, "family": "grace_update", "v": g.to_string()})) }
         "distributor.update" => { let g = grace_of(mv); (f.w.exec(&owner, &f.hub.distributor.clone(), &white_whale_std::fee_distributor::ExecuteMsg::UpdateConfig { owner: None, bonding_contract_addr: None, fee_collector_addr: None,
             grace_period: Some(Uint64::new(g)), distribution_asset: None, epoch_config: None }, &[]), none(), json!({"w": w, "family": "grace_update", "v": g.to_string()})) }
         "distributor.update_duration" => { let d = dur_of(mv); let cfg: white_whale_std::fee_distributor::Config = f.w.query(&f.hub.distributor, &white_whale_std::fee_distributor::QueryMsg::Config {}).unwrap();
